@@ -94,15 +94,17 @@ def get_rankings_from_file(file: str) -> List[List[Set[Element]]]:
     :return: A List of Set of Element, i.e. a ranking, not yet encapsulated.
     """
     ignore_lines = ["%"]
+    # the shortest lines to parse: the two notations of an empty ranking
+    empty_rankings = ["[]", "{}"]
 
     with open(file, "r", encoding='utf-8') as file_rankings:
         lines = file_rankings.read().replace("\\\n", "")
     try:
         res = [parse_ranking_with_ties_of_int(line)
-               for line in lines.split("\n") if len(line) > 2 and line[0] not in ignore_lines]
+               for line in lines.split("\n") if (len(line) > 2 or line in empty_rankings) and line[0] not in ignore_lines]
     except ValueError:
         res = [parse_ranking_with_ties_of_str(line)
-               for line in lines.split("\n") if len(line) > 2 and line[0] not in ignore_lines]
+               for line in lines.split("\n") if (len(line) > 2 or line in empty_rankings) and line[0] not in ignore_lines]
     return res
 
 
